@@ -142,12 +142,14 @@ pub fn reuse(args: &[String]) -> i32 {
                     let mut got = Vec::new();
                     let mut want = Vec::new();
                     let mut steps: Vec<&str> = Vec::new();
-                    let plan: [&str; 9] = ["gen", "buf", "gen", "ext", "gen", "buf", "range", "gen", "bytes"];
+                    let plan: [&str; 12] = ["gen", "buf", "gen", "ext", "gen", "buf", "range", "gen", "bytes", "ver", "gen", "bytes"];
                     for st in plan {
                         match st {
                             "buf" => { cur.buf = !cur.buf; g = g.with_buffer_opcodes(cur.buf); }
                             "ext" => { cur.ext = !cur.ext; g = g.with_ext_opcodes(cur.ext); }
                             "range" => { cur.min += 3; cur.max += 11; g = g.with_opcode_range(cur.min, cur.max); }
+                            // re-targeting through the public state field: everything follows the new protocol
+                            "ver" => { cur.p = (cur.p + 3) % 6; g.state.version = pickle_fuzzer::Version::try_from(cur.p).expect("protocol"); }
                             _ => {
                                 let c = if st == "gen" { 1 } else { 2 };
                                 let (res, d, n) = do_call(&mut g, c, &spec.x, &spec.y);
